@@ -1,8 +1,13 @@
 (* C04 — Caches are transparent: losing or corrupting them never changes an answer; every read
    terminates however long the thread is.
-   Statements only; proofs are in Proofs/TailLoopProofs.v, Proofs/CacheProofs.v, Proofs/CacheGenProofs.v.
-   Every theorem is closed by `exact`. *)
-From RipV Require Import Base.Prelude Model.TailLoop Model.Cache Proofs.TailLoopProofs Proofs.CacheProofs
+   Statements only; proofs are in Proofs/TailLoopProofs.v, Proofs/CacheProofs.v, Proofs/CacheGenProofs.v,
+   Proofs/CacheCompileProofs.v (the compile input; on top of builder compile's Model/Compile.v + Proofs/CompileProofs.v).
+   Every theorem is closed by `exact`.
+   Two models meet here: Model/Cache.v (frames with byte lengths; imported last, so `log`, `frame`, `valid_log`, `fseq`
+   mean its versions) and Model/Compile.v (the context compiler's frames; written `Compile.log`, `Compile.valid_log`). *)
+From RipV Require Import Base.Prelude Model.Compile Proofs.CompileProofs Model.CacheCompile Proofs.CacheCompileProofs
+  Gen.CompileConsts Proofs.CacheCompileGenProofs.
+From RipV Require Import Model.TailLoop Model.Cache Proofs.TailLoopProofs Proofs.CacheProofs
   Gen.TailLoops Proofs.CacheGenProofs.
 
 (* ---------------------------------------------------------------- termination *)
@@ -61,8 +66,10 @@ Print Assumptions c04_source_loops_rounds.
    query's fast path equals its truth path.  Proved below for the queries whose fast path reads the
    full sidecar only (replay, cursor status, rotate target, selection status, schedule-decision /
    job-outcome part of compaction status, branch / handoff cut) with Undetectable = K1; the queries over
-   the derived sidecars and indexes (cut points, latest checkpoint, compile input: classes K2, K3) and
-   the bounded inflight-job scan are covered by the correspondence and the oracle only. *)
+   the derived sidecars and indexes have their own theorems further down (latest checkpoint and cut points: classes
+   K2, K3; the context compiled for a run: class K2m, c04_compile_transparent_partial); the bounded inflight-job scan,
+   hierarchical checkpoints through `.comp.idx` and the seek / message-id indexes are covered by the correspondence and
+   the oracle only. *)
 Definition c04_transparent_full : Prop :=
   forall (k : consts) (l : log) (s : sfile) (q : query) (a : list N),
     consts_wf k -> valid_log l = true -> FullFaithful l s ->
@@ -300,3 +307,92 @@ Theorem c04_K3_changes_cut_points :
   /\ map cp_to_seq (snd (cut_points_truth wlog5 1 4)) = [5; 3; 1].
 Proof. exact K3_changes_cut_points. Qed.
 Print Assumptions c04_K3_changes_cut_points.
+
+(* ---------------------------------------------------------------- the context compiled for a run *)
+(* load_context_compile_input_recent_messages_v1 over the cache files AS FOUND — the messages+runs sidecar present with any
+   content / absent and built from the full sidecar's lines / unreadable, the full sidecar's tail readable or not — with
+   every failure leg and fallback of the loader (Model/CacheCompile.v), any schedule of scan budgets `ks`, any sound
+   acceptance count `r`, followed by the context compiler (Model/Compile.v): decision and bundle are exactly what the
+   full replay of the truth log gives, or both fail.  Hypotheses, spelled out: the thread's seqs increase and frames
+   name earlier frames (C01 / fresh ids); outside K2m (MrFaithful: every suffix of the mr sidecar that parses is a suffix
+   of the projection of truth, the whole file only the whole projection; absent: a full sidecar that parses is the truth
+   stream); outside K1 as far as this reader looks (HeadFaithful: the full sidecar's last line, if it parses, is the
+   thread's last frame); and — the part NOT modelled — the seek-window producer over the seek / message-id indexes
+   answers, when it answers, with an admissible window (what C08 proves of the healthy one: c08_window_path_agrees).
+   The checkpoint source of the compiler is the projection of the stream (the `.comp` look-ups are
+   c04_latest_checkpoint_transparent_partial's subject). *)
+Definition c04_compile_transparent_full : Prop :=
+  forall (r : tail_count) (P : params) (texts : N -> N) (l : Compile.log) (a : N) (ks : list nat)
+         (mr full : cfile) (window : option (Compile.log * N)),
+  tail_count_sound r = true -> incr l -> wf_refs l = true ->
+  MrFaithful l mr full -> HeadFaithful l full ->
+  compile_fast r P texts ks mr full window l a = compile P texts l a.
+
+Theorem c04_compile_transparent_partial :
+  forall (r : tail_count) (P : params) (texts : N -> N) (l : Compile.log) (a : N) (ks : list nat)
+         (mr full : cfile) (window : option (Compile.log * N)),
+  tail_count_sound r = true -> incr l -> wf_refs l = true ->
+  MrFaithful l mr full -> HeadFaithful l full -> WindowSpec (p_limit P) l a window ->
+  compile_fast r P texts ks mr full window l a = compile P texts l a.
+Proof. exact compile_input_transparent_stmt. Qed.
+Print Assumptions c04_compile_transparent_partial.
+
+(* ... instantiated with the limits, the checkpoint visibility rule and the acceptance count of the CURRENT source
+   (Gen/CompileConsts.v, regenerated on every run; obligation gen_tail_count_ok) *)
+Theorem c04_compile_transparent_source_partial :
+  forall (texts : N -> N) (l : Compile.log) (a : N) (ks : list nat) (mr full : cfile) (window : option (Compile.log * N)),
+  incr l -> wf_refs l = true ->
+  MrFaithful l mr full -> HeadFaithful l full -> WindowSpec (p_limit p_gen) l a window ->
+  compile_fast gen_tail_count p_gen texts ks mr full window l a = compile p_gen texts l a.
+Proof. exact gen_compile_input_transparent. Qed.
+Print Assumptions c04_compile_transparent_source_partial.
+
+(* with every cache file gone the loader IS the replay (the reference side of the oracle) *)
+Theorem c04_compile_without_caches :
+  forall (r : tail_count) (P : params) (texts : N -> N) (ks : list nat) (l : Compile.log) (a : N),
+  compile_fast r P texts ks None None None l a = compile P texts l a.
+Proof. exact no_caches_is_replay. Qed.
+Print Assumptions c04_compile_without_caches.
+
+(* the faithful class is wide: what a rebuild writes; any lines at all followed by an unparsable one and then a tail
+   of the projection (garbage in the middle, a torn record, a torn LAST record with nothing behind it) *)
+Theorem c04_mr_rebuilt_faithful : forall l : Compile.log, MrFileFaithful l (map CGood (filter mr_keep l)).
+Proof. exact projection_file_faithful. Qed.
+Print Assumptions c04_mr_rebuilt_faithful.
+
+Theorem c04_mr_damaged_faithful :
+  forall (l x0 x2 : Compile.log) (front : list cline),
+  filter mr_keep l = x0 ++ x2 -> MrFileFaithful l ((front ++ [CBad]) ++ map CGood x2).
+Proof. exact damaged_file_faithful. Qed.
+Print Assumptions c04_mr_damaged_faithful.
+
+(* hypotheses satisfiable, on a 40-message thread: intact caches (the first scan budget is refused, the second
+   accepted), two garbage lines in the middle of the mr sidecar, a torn last line, no mr sidecar *)
+Example c04_compile_transparent_example :
+  Compile.valid_log cc_log = true /\ wf_refs cc_log = true
+  /\ MrFaithful cc_log (Some cc_mr) cc_full /\ MrFaithful cc_log (Some cc_mr_damaged) cc_full
+  /\ MrFaithful cc_log (Some cc_mr_torn) cc_full /\ MrFaithful cc_log None cc_full
+  /\ HeadFaithful cc_log cc_full /\ (forall a, WindowSpec 16 cc_log a None)
+  /\ users (compile_fast CountUpToCut code16 no_texts cc_ks (Some cc_mr_damaged) cc_full None cc_log 25) = map N.of_nat (seq 10 16)
+  /\ users (compile code16 no_texts cc_log 25) = map N.of_nat (seq 10 16).
+Proof. exact compile_transparent_example. Qed.
+
+(* K2m is not vacuous (S4): the mr sidecar re-created by the append of the 40th message after its loss *)
+Theorem c04_K2m_changes_answer :
+  ~ MrFaithful cc_log (Some cc_mr_recreated) cc_full
+  /\ HeadFaithful cc_log cc_full
+  /\ users (compile_fast CountUpToCut code16 no_texts cc_ks (Some cc_mr_recreated) cc_full None cc_log 40) = [40]
+  /\ users (compile code16 no_texts cc_log 40) = map N.of_nat (seq 25 16).
+Proof. exact K2m_changes_answer. Qed.
+Print Assumptions c04_K2m_changes_answer.
+
+(* ... and neither is the soundness of the acceptance count (seeded change C04-6 / C08-2: `<= head_seq` for
+   `<= from_seq`): with intact caches the first, too short window is accepted and the compiled context has 5 messages;
+   with the caches removed it has the 16 the log determines *)
+Theorem c04_compile_count_all_refuted :
+  MrFaithful cc_log (Some cc_mr) cc_full /\ HeadFaithful cc_log cc_full
+  /\ users (compile_fast CountAll code16 no_texts cc_ks (Some cc_mr) cc_full None cc_log 25) = [21; 22; 23; 24; 25]
+  /\ users (compile_fast CountAll code16 no_texts cc_ks None None None cc_log 25) = map N.of_nat (seq 10 16)
+  /\ users (compile code16 no_texts cc_log 25) = map N.of_nat (seq 10 16).
+Proof. exact compile_count_all_changes_answer. Qed.
+Print Assumptions c04_compile_count_all_refuted.
